@@ -18,13 +18,13 @@ func init() {
 		Explanation: "Decides the all-or-nothing clause and the pairing clauses structurally: (R1) no seat-manager mutator has a seat-map / occupant-field write on any path to an error exit; (R2) each mutator can return the sentinels the statement names and both assigners reject an already seated id; (R3) no engine membership operation reaches an error exit after a write to the existing table's player list / seat map / hand index list or after a seat-manager assign/remove that succeeded (inter-procedural error-purity summaries; roots reported once, propagating callers listed as inheriting); (R4) the seat stored for a new player is the seat manager's answer for that same id, the ids removed from the seat manager are the ids filtered from the player list; (R5) capacity guards; (R6) who may call the seat-manager assign/remove and who may store the three headers; (R7) the seated-in flag is set together with the seat manager's. NOT decided: equality of the three views after arbitrary histories, seat reuse, index arithmetic of the seat-map patch.",
 		Rules: map[string]string{
 			"R1": "seat-manager mutators: error exits are mutation-free (map update / ID / IsIn / HasChips)",
-			"R2": "sentinel coverage per mutator; sibling assigners both reject an id that is already seated",
-			"R3": "engine membership operations: no error exit after a bookkeeping write or a successful seat-manager assign/remove",
+			"R2": "sentinel coverage per mutator; sibling assigners both reject an id that is already seated; exact batch validation path by path: AssignSeats rejects exactly a player named twice / a seat named twice / a seat held by somebody else / a player already seated and remembers accepted entries; RandomAssignSeats rejects exactly a seated or repeated id; assignment covers the whole batch, only after the capacity test / a successful draw of len(batch) empty seats",
+			"R3": "engine membership operations: no error exit after a bookkeeping write or a successful seat-manager assign/remove; no function returns as its error a call's error value on the path where it is known nil (inverted test)",
 			"R4": "paired updates: Seat ← GetSeatID(same id) after assignment; RemoveSeats(ids) with the ids that filtered the player list",
-			"R5": "capacity guards dominate buy-in and creation",
-			"R6": "who-may-call seat-manager assign/remove; who-may-write PlayerStates/SeatMap/GamePlayerIndexes headers",
+			"R5": "capacity guards dominate buy-in and creation; buy-in only for an id not at the table and top-up only for one that is; each half of a batch update applied with its own list whenever non-empty",
+			"R6": "who-may-call seat-manager assign/remove; who-may-write PlayerStates/SeatMap/GamePlayerIndexes headers; leave filter keeps a player iff his id is not among the leaving ids, over the whole list; no in-place filtering; new seat map = one unset entry per seat",
 			"R8": "seat-manager look-ups path by path: each scan of the seats selects exactly the seat with the given id / the empty / occupied / eligible seats and yields that seat's own key; unknown id → (unset, not-found); RemoveSeats and JoinPlayers reject exactly unknown ids, collect exactly the seats found, and apply their update to every collected seat",
-			"R7": "IsIn=true and SeatManager.JoinPlayers([same id]) on the same paths of the same function",
+			"R7": "IsIn=true and SeatManager.JoinPlayers([same id]) on the same paths of the same function; the join operation path by path: unknown id → not-found, no seat → invalid action, already in → no-op, otherwise marked in the table AND the seat manager told; the seated-in flag is written only as true by join / false at construction",
 		},
 		Assumptions: []string{"table creation builds fresh state that the manager discards on error (frozen exception)"},
 		Run:         checkC03,
